@@ -30,3 +30,27 @@ LZ4F_dctx* verif_create_dctx(void)
 int verif_alloc_count(void) { return verif_alloc_n; }
 unsigned long long verif_alloc_get(int i) { return (i >= 0 && i < verif_alloc_n) ? (unsigned long long)verif_alloc_log[i] : 0; }
 void verif_alloc_reset(void) { verif_alloc_n = 0; }
+
+/* C08 (Model.FrameDDict): the dictionary / tmpOut bookkeeping, read after every LZ4F_decompress call.
+   dict is classified: 0 = NULL, 1 = inside tmpOutBuffer [tmpOutBuffer, tmpOutBuffer+maxBufferSize] (value = offset),
+   2 = elsewhere, i.e. caller memory (value = the address). */
+int verif_dctx_dict_class(const LZ4F_dctx* d)
+{
+    if (d->dict == NULL) return 0;
+    if (d->tmpOutBuffer != NULL && d->dict >= d->tmpOutBuffer && d->dict <= d->tmpOutBuffer + d->maxBufferSize) return 1;
+    return 2;
+}
+unsigned long long verif_dctx_dict_value(const LZ4F_dctx* d)
+{
+    int const c = verif_dctx_dict_class(d);
+    if (c == 0) return 0;
+    if (c == 1) return (unsigned long long)(d->dict - d->tmpOutBuffer);
+    return (unsigned long long)(size_t)d->dict;
+}
+unsigned long long verif_dctx_dictSize(const LZ4F_dctx* d) { return (unsigned long long)d->dictSize; }
+/* tmpOut - tmpOutBuffer; tmpOut == NULL (never initialised) counts as offset 0 */
+long long verif_dctx_tmpOut_off(const LZ4F_dctx* d) { return d->tmpOut == NULL ? 0 : (long long)(d->tmpOut - d->tmpOutBuffer); }
+unsigned long long verif_dctx_tmpOutSize(const LZ4F_dctx* d) { return (unsigned long long)d->tmpOutSize; }
+unsigned long long verif_dctx_tmpOutStart(const LZ4F_dctx* d) { return (unsigned long long)d->tmpOutStart; }
+/* address of tmpOutBuffer (to read back what the dictionary bytes really are: C08_dict_is_history_refuted replay) */
+unsigned long long verif_dctx_tmpOutBuffer(const LZ4F_dctx* d) { return (unsigned long long)(size_t)d->tmpOutBuffer; }
